@@ -48,9 +48,16 @@ def reduceOps := ["sum", "prod", "nansum", "nanprod", "max", "min", "nanmax", "n
 def countOps := ["count_nonzero", "argmax", "argmin"]
 def scanOps := ["cumsum", "cumprod", "nancumsum", "nancumprod"]
 
-/-- `op dtype tag axis keepdims vseed` — dtype and vseed only matter to the Rust side -/
+/-- `op dtype tag axis keepdims vseed` — dtype and vseed only matter to the Rust side.
+`op dtype tag axis keepdims vseed ref` (seventh token `ref`): a case beyond the reach of the list-backed model (16 384 … 140 000
+elements; the model is quadratic).  The driver does NOT answer it: it says `ref`, and the harness judges the real result
+against its native lane-membership reference (a coordinate formula in plain Rust), which the harness compares with the answer
+of THIS model on every other case of the same run (`refstats` reports how many).  Only known operations are waved through. -/
 def handle (op : String) (args : List String) : Option String :=
   match args with
+  | [] => if op == "refstats" then some "ref" else none
+  | [_, _, _, _, _, "ref"] =>
+    if reduceOps.contains op || countOps.contains op || scanOps.contains op then some "ref" else none
   | [_, a, ax, kd, _] => do
     let a ← parseArr? a; let ax ← parseOpt? parseInt? ax; let kd ← parseKd? kd
     if reduceOps.contains op then some (showRes showLaneArr (a.reduceAxis 0 [] ax reduceBody))
